@@ -306,6 +306,20 @@ def pol_specs(draw):
     return dict(kind=kind, scale=scale)
 
 
+def _shift_rounding_slack(spec, times, tof):
+    """A FunctionSignal delayed by tof is re-evaluated at (t + tof) - tof, which differs from t by
+    rounding of the sum (a few ulp of |t| + tof: 2e-19 s for a millisecond path) - visible at the
+    1e-9 level on a 0.1 ns grid.  Returns max |x(t +- 4 ulp) - x(t)| of the generated function."""
+    if spec["cls"] != "FunctionSignal":
+        return 0.0
+    v = spec["v"]
+    t0, dt = float(times[0]), float(times[1] - times[0])
+    d = 4 * math.ulp(float(np.max(np.abs(times))) + abs(float(tof)))
+    f = lambda t: v["amp"] * _pulse((np.asarray(t, dtype=float) - t0) / dt, v["centre"], v["width"])
+    x0 = f(times)
+    return float(max(np.max(np.abs(f(times + d) - x0)), np.max(np.abs(f(times - d) - x0))))
+
+
 def _norm(v):
     """Euclidean norm that does not underflow for tiny components."""
     v = np.asarray(v, dtype=float)
@@ -657,6 +671,7 @@ def check_reference(case, rec):
         complex_gain = False
         clamps = False      # without force_real the table is looked up at the signed frequency
     tol = TOL * scale + FLOOR
+    tol += 2 * _shift_rounding_slack(case["signal"], times, p.tof) * (scale / xmax if xmax > 0 else 0.0)
     biggest = 0.0
     for name, got, gain in jobs:
         want = ref_filter(x, att * gain)
@@ -744,7 +759,8 @@ def check_interpolation(case, rec):
     for name, got, gain in jobs:
         want = ref_filter(x, att * gain)
         bound = abs(gain) * float(np.sum(weights * spread * spec)) / (2 * n)
-        tol = bound + TOL * scale + FLOOR
+        tol = bound + TOL * scale + FLOOR + 2 * _shift_rounding_slack(case["signal"], times, p.tof) * \
+            (scale / float(np.max(np.abs(x))) if float(np.max(np.abs(x))) > 0 else 0.0)
         err = float(np.max(np.abs(got - want)))
         mark = ""
         if err > tol:
@@ -956,7 +972,9 @@ def check_attenuation(case, rec):
     elif ref is not None and ref[1]:
         want = np.asarray(ref[0], dtype=float)
         rel, slack = _exponent_tolerance(b, want, fs)
-        for i in range(len(fs)):
+        if not math.isfinite(rel):
+            cl.append("uniformity_ill_conditioned")
+        for i in range(len(fs) if math.isfinite(rel) else 0):
             if att[i] == 0.0:
                 require(want[i] > 600.0, "attenuation(%r) = 0 although the line integral of ds / L_att is "
                         "only %r; %s", float(fs[i]), float(want[i]), _geom(b))
@@ -968,7 +986,7 @@ def check_attenuation(case, rec):
                     float(want[i]), rel, float(slack[i]), _geom(b))
             if want[i] < 600.0:
                 require(att[i] > 0, "attenuation underflow")
-        decided = bool(np.max(want) > 1e-3)
+        decided = bool(np.max(want) > 1e-3) and math.isfinite(rel)
         cl.append("quadrature")
     else:
         cl.append("no_reference")
@@ -1000,7 +1018,9 @@ def _exponent_tolerance(b, want, fs):
         beta = _beta(b)
         if min(b.f[2], b.t[2]) < z_u and 0 < beta < spec["n0"]:
             tan2 = beta * beta / (spec["n0"] ** 2 - beta * beta)
-            return min(0.5, 0.01 + 1.5e-5 * tan2), slack
+            # (beyond 25 % the first-order bound itself is meaningless - within half a degree of
+            # horizontal over tens of kilometres: nothing is decided, class `uniformity_ill_conditioned`)
+            return (0.01 + 1.5e-5 * tan2 if 1.5e-5 * tan2 <= 0.25 else math.inf), slack
     if b.kind != "basic":
         return 0.01, slack
     spec = b.spec
@@ -1387,7 +1407,9 @@ def check_layered(case, rec):
         wantv = ref_filter(x, a_f * gain)
         err = float(np.max(np.abs(got - wantv)))
         biggest = max(biggest, float(np.max(np.abs(wantv))))
-        require(err <= TOL * scale * max(1.0, abs(gain)) + FLOOR,
+        xm = float(np.max(np.abs(x)))
+        require(err <= TOL * scale * max(1.0, abs(gain)) + FLOOR + 2 * max(1.0, abs(gain)) *
+                _shift_rounding_slack(case["signal"], times, tof) * (scale / xm if xm > 0 else 0.0),
                 "%s output differs from irfft(attenuation x fresnel x (pol.u) x rfft(padded input)) by %.3g "
                 "(gain %r); %s", name, err, gain, _geom(b))
     cl += sorted(set(kinds)) + ["polarized" if case["polarized"] else "unpolarized", "legs=%d" % len(legs)]
